@@ -14,8 +14,11 @@ import (
 	"fmt"
 	"hash/maphash"
 	"os"
+	"runtime"
 	"runtime/debug"
 	"sort"
+	"strconv"
+	"strings"
 	"sync"
 	"sync/atomic"
 	"syscall"
@@ -332,7 +335,11 @@ func Main(body func(c *Ctx)) {
 	budget := flag.Duration("budget", 0, "soft time budget (0 = tier default)")
 	stall := flag.Duration("stall", 180*time.Second, "watchdog stall time")
 	inflightPath := flag.String("inflight-file", "", "write every in-flight case name to this file (crash triage)")
+	memQuota := flag.Int64("memquota", 0, "resident-memory quota of this worker in bytes (0 = none)")
 	flag.Parse()
+	if *memQuota > 0 {
+		go memoryWatch(*memQuota)
+	}
 
 	c := &Ctx{
 		Tier:      *tier,
@@ -418,6 +425,39 @@ func Main(body func(c *Ctx)) {
 	}()
 
 	c.write()
+}
+
+// memoryWatch ends the process with the stacks of all goroutines when its
+// resident memory exceeds the quota.  The checks themselves stay far below it;
+// only code under test that has gone wrong (a garbage length read through a
+// corrupted structure, an unbounded append) gets there, and the stack of the
+// goroutine that was running tells the driver where.  Dying here, with a
+// stack, is what keeps the kernel's out-of-memory killer (which leaves no
+// trace) from ever having to act.
+func memoryWatch(quota int64) {
+	page := int64(os.Getpagesize())
+	for {
+		time.Sleep(50 * time.Millisecond)
+		b, err := os.ReadFile("/proc/self/statm")
+		if err != nil {
+			return
+		}
+
+		f := strings.Fields(string(b))
+		if len(f) < 2 {
+			return
+		}
+
+		pages, _ := strconv.ParseInt(f[1], 10, 64)
+		if pages*page <= quota {
+			continue
+		}
+
+		buf := make([]byte, 1<<20)
+		buf = buf[:runtime.Stack(buf, true)]
+		fmt.Fprintf(os.Stderr, "fatal error: memory quota exceeded: %d MiB resident, quota %d MiB\n\n%s\n", pages*page>>20, quota>>20, buf)
+		os.Exit(3)
+	}
 }
 
 // cpuTime is the CPU time (user + system) consumed by this process so far.
